@@ -33,8 +33,11 @@ CLAIMED.update({
         "text": "Theorems for every byte string the decoder accepts and every receiving schema: raw bytes of the parsed records concatenate to the input (no byte lost or invented); "
                 "records the receiver does not know (number absent or wire type unfitting) are appended verbatim, in arrival order, to the unknown fields and nothing else is; "
                 "encode = known part ++ unknown bytes; decoding with the unknown records deleted gives the same field values / oneof selection / presence; any sub-sequence of "
-                "parsed records re-parses to itself. End-to-end evolution (newer -> older reader/writer -> newer) is the oracle on the implementation.",
-        "note": TB + "evolution end-to-end needs the C01 round trip and C02 order-insensitivity; proved at record level, observed end to end.",
+                "parsed records re-parses to itself. evolution_roundtrip (Evolution*.lean): END-TO-END schema evolution — for two schemas that agree except on one class, of which the older "
+                "keeps ANY sub-list of the fields (oneof members included), and every MsgOk value m of the newer class: the older program parses bytes(m), re-encodes it, and the newer program "
+                "parses that back to a value ValEqv-equivalent to m with the same unknown fields and the same oneof selection (a selected member the older class dropped travels through the "
+                "unknown bytes and is re-selected); evolution_detail gives the intermediate message and bytes; proved from C01's round trip, C02's permutation / unknown-interleaving theorems and a projection lemma.",
+        "note": TB + "the evolving class must not be referred to by a field (its own or another class's: nested payloads would be reordered too) — decidable SchemaFree; schema changes other than dropping fields are not covered.",
         "technique": "Lean 4 proof (induction over the parsed record list; locality of record decoding) + differential correspondence with older-schema readers",
         "design_ref": "DESIGN.md §7 C08",
     },
